@@ -48,6 +48,11 @@ impl Mixer {
 	}
 
 	pub fn on_change_sample_rate(&mut self, sample_rate: u32) {
+		// tracks that were added but not picked up yet had their effects
+		// initialized with the old sample rate, so they need to hear about
+		// the change too
+		self.sub_tracks.remove_and_add(|_| false);
+		self.send_tracks.remove_and_add(|_| false);
 		self.main_track.on_change_sample_rate(sample_rate);
 		for (_, track) in &mut self.sub_tracks {
 			track.on_change_sample_rate(sample_rate);
